@@ -307,7 +307,9 @@ class ModelCacheMixin:
     def batch_eval(self, asts, n, extra_constraints=(), exact=None):
         results = self._get_batch_solutions(asts, n=n, extra_constraints=extra_constraints)
 
-        if len(results) == n or (len(asts) == 1 and asts[0].hash() in self._eval_exhausted):
+        if len(results) == n or (
+            len(extra_constraints) == 0 and len(asts) == 1 and asts[0].hash() in self._eval_exhausted
+        ):
             return results
 
         remaining = n - len(results)
@@ -343,8 +345,9 @@ class ModelCacheMixin:
 
     def min(self, e, extra_constraints=(), signed=False, exact=None):
         cached = []
-        if e.hash() in self._eval_exhausted or e.hash() in (
-            self._min_signed_exhausted if signed else self._min_exhausted
+        if len(extra_constraints) == 0 and (
+            e.hash() in self._eval_exhausted
+            or e.hash() in (self._min_signed_exhausted if signed else self._min_exhausted)
         ):
             # we set allow_unconstrained to False because we expect all returned values for e are returned by Z3,
             # instead of some arbitrarily assigned concrete values.
@@ -364,8 +367,9 @@ class ModelCacheMixin:
 
     def max(self, e, extra_constraints=(), signed=False, exact=None):
         cached = []
-        if e.hash() in self._eval_exhausted or e.hash() in (
-            self._max_signed_exhausted if signed else self._max_exhausted
+        if len(extra_constraints) == 0 and (
+            e.hash() in self._eval_exhausted
+            or e.hash() in (self._max_signed_exhausted if signed else self._max_exhausted)
         ):
             cached = self._get_solutions(e, extra_constraints=extra_constraints, allow_unconstrained=False)
 
